@@ -135,6 +135,11 @@ fn main() {
                 std::thread::sleep(std::time::Duration::from_millis(50));
             });
         }
+        "inputops" => {
+            let scale: usize = get("scale", "1").parse().unwrap();
+            let n = extra::run_inputops(&out, shards, seed, scale);
+            println!("{{\"events\":{}}}", n);
+        }
         "matrix" => {
             let n = matrix::run(&out);
             println!("{{\"events\":{}}}", n);
